@@ -11,22 +11,30 @@ package c10
 import (
 	"context"
 	"crypto"
+	"crypto/sha256"
 	"crypto/x509"
 	"encoding/pem"
 	"errors"
 	"flag"
 	"fmt"
+	"io"
 	"os"
+	"path/filepath"
+	"sort"
 	"strconv"
 	"strings"
 	"testing"
 	"time"
 
+	"github.com/google/gce-tcb-verifier/cmd/output"
 	"github.com/google/gce-tcb-verifier/endorse"
 	"github.com/google/gce-tcb-verifier/keys"
 	epb "github.com/google/gce-tcb-verifier/proto/endorsement"
+	"github.com/google/gce-tcb-verifier/sign/gcsca"
 	styp "github.com/google/gce-tcb-verifier/sign/types"
 	"pgregory.net/rapid"
+
+	"github.com/google/gce-tcb-verifier/testing/nonprod/memkm"
 
 	"verif/internal/ev"
 	"verif/internal/pki"
@@ -70,15 +78,15 @@ type injector struct {
 	stack   []int
 	crashed bool
 	// observations for the oracle's root-cause classification
-	newKey            string // name returned by the real CreateNewSigningKeyVersion
-	newKeyAtFault     bool   // the new key existed when the first fault fired
-	fired             []string
-	errReturned       bool // an injected error has been returned to the code under test
-	mutatingAfterErr  []string
-	destroyDone       []string // key versions whose real DestroyKeyVersion completed
-	finalizeOK        bool     // the real Finalize returned nil
-	destroyPreFinal   bool     // a real DestroyKeyVersion completed before the real Finalize returned nil
-	unreached         int
+	newKey           string // name returned by the real CreateNewSigningKeyVersion
+	newKeyAtFault    bool   // the new key existed when the first fault fired
+	fired            []string
+	errReturned      bool // an injected error has been returned to the code under test
+	mutatingAfterErr []string
+	destroyDone      []string // key versions whose real DestroyKeyVersion completed
+	finalizeOK       bool     // the real Finalize returned nil
+	destroyPreFinal  bool     // a real DestroyKeyVersion completed before the real Finalize returned nil
+	unreached        int
 }
 
 func newInjector(faults []faultSpec) *injector {
@@ -405,6 +413,32 @@ type scenario struct {
 	// Next, if non-empty: the rotation after the starred one (a new process, --overwrite) is
 	// faulted as well before the fault-free one is tried.
 	Next []faultSpec `json:"next,omitempty"`
+	// Flags of the starred rotation (all false: `rotate` without flags on a clean store).
+	KeepGoing bool `json:"keep_going,omitempty"` // --keep_going
+	Overwrite bool `json:"overwrite,omitempty"`  // --overwrite
+	// SerialOfPrimary: --rotated_key_serial_override=<subject serial of the current primary>, so
+	// that the new certificate's object name is the current primary certificate's object name.
+	SerialOfPrimary bool `json:"serial_of_primary,omitempty"`
+	// BlockKeyFile (localkm): the file of the key version about to be created cannot be written
+	// (a directory sits at its path), i.e. key creation fails half-way inside the key manager.
+	BlockKeyFile bool `json:"block_key_file,omitempty"`
+}
+
+func (sc *scenario) flagString() string {
+	var f []string
+	if sc.KeepGoing {
+		f = append(f, "--keep_going")
+	}
+	if sc.Overwrite {
+		f = append(f, "--overwrite")
+	}
+	if sc.SerialOfPrimary {
+		f = append(f, "--rotated_key_serial_override=<serial of the current primary>")
+	}
+	if sc.BlockKeyFile {
+		f = append(f, "[new key file unwritable]")
+	}
+	return strings.Join(f, " ")
 }
 
 func (sc *scenario) opts() rotsim.Options {
@@ -413,6 +447,9 @@ func (sc *scenario) opts() rotsim.Options {
 
 func (sc *scenario) String() string {
 	s := fmt.Sprintf("%s+%s r=%d faults=%v", sc.KM, sc.CA, sc.R, sc.Faults)
+	if f := sc.flagString(); f != "" {
+		s += " starred-flags=" + f
+	}
 	if len(sc.Next) > 0 {
 		s += fmt.Sprintf(" next-rotation-faults=%v", sc.Next)
 	}
@@ -472,6 +509,11 @@ type runResult struct {
 	crashed bool
 	pan     any
 	after   *rotsim.Durable
+	// inproc: what the SAME components (this process's authority, key manager and signer objects)
+	// say right after the rotation returned; judged only when the process lived on (no crash).
+	inprocJudged  bool
+	inproc        string
+	inprocPrimary string
 }
 
 func (r *runResult) outcome() string {
@@ -488,9 +530,27 @@ func (r *runResult) outcome() string {
 	return "ok"
 }
 
+// interrupted: the process did not get to report anything (crash, or a panic of the code under
+// test, which the property statement counts as an interruption like any other).
+func (r *runResult) interrupted() bool { return r.crashed || r.pan != nil }
+
+// runFlags are the command-line flags of one rotation attempt.
+type runFlags struct {
+	overwrite bool
+	keepGoing bool
+	serial    int64  // 0: default (current serial + 1)
+	blockKey  string // localkm: name of a key version whose file cannot be created
+}
+
+// withComponents is rotsim.WithComponents plus --keep_going.
+func withComponents(f runFlags, ca styp.CertificateAuthority, m keys.ManagerInterface, s styp.Signer, rnd io.Reader) context.Context {
+	ctx := output.NewContext(context.Background(), &output.Options{Quiet: true, Overwrite: f.overwrite, KeepGoing: f.keepGoing})
+	return keys.NewContext(ctx, &keys.Context{CA: ca, Manager: m, Signer: s, Random: rnd})
+}
+
 // runRotation builds fresh components over d (one process), runs one rotation the way the rotate
 // command does against the wrappers, and extracts what survives.
-func runRotation(sc *scenario, d *rotsim.Durable, in *injector, overwrite bool) *runResult {
+func runRotation(sc *scenario, d *rotsim.Durable, in *injector, f runFlags) *runResult {
 	o := sc.opts()
 	o.Gate = in
 	w, err := rotsim.Build(d, o)
@@ -498,6 +558,11 @@ func runRotation(sc *scenario, d *rotsim.Durable, in *injector, overwrite bool) 
 		panic("harness: " + err.Error())
 	}
 	defer w.Close()
+	if f.blockKey != "" && w.KeyDir != "" {
+		if err := os.Mkdir(filepath.Join(w.KeyDir, f.blockKey+".pem"), 0o755); err != nil {
+			panic("harness: " + err.Error())
+		}
+	}
 	res := &runResult{in: in}
 	func() {
 		defer func() {
@@ -512,13 +577,38 @@ func runRotation(sc *scenario, d *rotsim.Durable, in *injector, overwrite bool) 
 				res.pan = r
 			}
 		}()
-		ctx := rotsim.WithComponents(overwrite, &faultCA{base: w.CA, in: in}, &faultKM{base: w.Manager, in: in}, &faultSigner{base: w.Signer, in: in}, w.Rand)
-		res.kver, res.prep, res.err = rotsim.Rotate(ctx, rotsim.RotateParams{})
+		ctx := withComponents(f, &faultCA{base: w.CA, in: in}, &faultKM{base: w.Manager, in: in}, &faultSigner{base: w.Signer, in: in}, w.Rand)
+		res.kver, res.prep, res.err = rotsim.Rotate(ctx, rotsim.RotateParams{Serial: f.serial})
 	}()
-	in.crashed = true // nothing may reach the components any more
+	in.crashed = true // nothing may reach the components through the wrappers any more
 	if w.Store != nil {
 		w.Store.Gate = nil
 		closedAfterFailedWrite += w.Store.ClosedAfterFailedWrite
+	}
+	if f.blockKey != "" && w.KeyDir != "" {
+		os.Remove(filepath.Join(w.KeyDir, f.blockKey+".pem")) // the obstacle is transient
+	}
+	if !res.interrupted() {
+		// the process is still alive: its own authority / key manager / signer objects must still
+		// name a usable primary (reads only; nothing durable changes)
+		func() {
+			defer func() {
+				if r := recover(); r != nil {
+					res.inproc = fmt.Sprintf("the components panic when asked for the primary: %v", r)
+				}
+			}()
+			var info stateInfo
+			res.inproc, info = judgeComponents(withComponents(runFlags{}, w.CA, w.Manager, w.Signer, w.Rand), func() []string {
+				var n []string
+				for k := range w.Signer.Keys {
+					n = append(n, k)
+				}
+				sort.Strings(n)
+				return n
+			})
+			res.inprocPrimary = info.primary
+		}()
+		res.inprocJudged = true
 	}
 	if res.after, err = w.Durable(); err != nil {
 		panic("harness: " + err.Error())
@@ -544,16 +634,27 @@ func judgeDurable(sc *scenario, d *rotsim.Durable) (symptom string, info stateIn
 		return "components cannot be built over the surviving state: " + err.Error(), info
 	}
 	defer w.Close()
-	ctx := endorse.NewContext(w.Context(false), &endorse.Context{Timestamp: verifyTime})
-	primary, err := w.CA.PrimarySigningKeyVersion(ctx)
+	return judgeComponents(w.Context(false), d.KeyNames)
+}
+
+// judgeComponents is the oracle proper, on whatever components ctx carries. liveKeys is only used
+// to make messages readable: that the primary's key is alive is decided by signing with it.
+func judgeComponents(base context.Context, liveKeys func() []string) (symptom string, info stateInfo) {
+	kc, err := keys.FromContext(base)
 	if err != nil {
-		return "fresh authority cannot tell its primary signing key: " + err.Error(), info
+		panic("harness: " + err.Error())
+	}
+	ca := kc.CA
+	ctx := endorse.NewContext(base, &endorse.Context{Timestamp: verifyTime})
+	primary, err := ca.PrimarySigningKeyVersion(ctx)
+	if err != nil {
+		return "the authority cannot tell its primary signing key: " + err.Error(), info
 	}
 	info.primary = primary
 	if primary == "" {
 		return "no primary signing key is recorded any more", info
 	}
-	der, err := w.CA.Certificate(ctx, primary)
+	der, err := ca.Certificate(ctx, primary)
 	if err != nil {
 		return fmt.Sprintf("recorded primary signing key %q has no certificate: %v", primary, err), info
 	}
@@ -561,59 +662,231 @@ func judgeDurable(sc *scenario, d *rotsim.Durable) (symptom string, info stateIn
 	if err != nil {
 		return fmt.Sprintf("certificate of primary %q does not parse: %v", primary, err), info
 	}
-	bundle, err := w.CA.CABundle(ctx, primary)
+	bundle, err := ca.CABundle(ctx, primary)
 	if err != nil {
 		return fmt.Sprintf("root certificate unavailable for primary %q: %v", primary, err), info
 	}
-	blk, _ := pem.Decode(bundle)
-	if blk == nil {
-		return "root certificate is not PEM", info
+	// "intermediate..root": every certificate of the bundle is taken as a trust anchor (the check
+	// is about the authority's own store staying coherent, not about who is trusted)
+	var roots []*x509.Certificate
+	for rest := bundle; ; {
+		var blk *pem.Block
+		blk, rest = pem.Decode(rest)
+		if blk == nil {
+			break
+		}
+		c, err := x509.ParseCertificate(blk.Bytes)
+		if err != nil {
+			return "a certificate of the CA bundle does not parse: " + err.Error(), info
+		}
+		roots = append(roots, c)
 	}
-	root, err := x509.ParseCertificate(blk.Bytes)
-	if err != nil {
-		return "root certificate does not parse: " + err.Error(), info
+	if len(roots) == 0 {
+		return "the CA bundle holds no PEM certificate", info
 	}
-	if err := root.CheckSignature(cert.SignatureAlgorithm, cert.RawTBSCertificate, cert.Signature); err != nil {
-		return fmt.Sprintf("certificate of primary %q does not verify under the root: %v", primary, err), info
+	chained := false
+	for _, r := range roots {
+		if r.CheckSignature(cert.SignatureAlgorithm, cert.RawTBSCertificate, cert.Signature) == nil {
+			chained = true
+			break
+		}
 	}
-	if _, ok := d.Keys[primary]; !ok {
-		return fmt.Sprintf("recorded primary signing key %q is not among the key manager's live keys %v", primary, d.KeyNames()), info
+	if !chained {
+		return fmt.Sprintf("certificate of primary %q does not verify under the stored root", primary), info
 	}
 	doc := &epb.VMGoldenMeasurement{Digest: []byte("0123456789abcdef0123456789abcdef0123456789abcdef"), ClSpec: 10}
 	e, err := endorse.SignDoc(ctx, doc)
 	if err != nil {
-		return fmt.Sprintf("endorse.SignDoc with primary %q fails: %v", primary, err), info
+		return fmt.Sprintf("endorse.SignDoc with primary %q fails: %v (live keys: %v)", primary, err, liveKeys()), info
 	}
-	if ok, why := pki.RefAuthentic(e, []*x509.Certificate{root}, verifyTime); !ok {
+	if ok, why := pki.RefAuthentic(e, roots, verifyTime); !ok {
 		return fmt.Sprintf("endorsement signed with primary %q is not authentic: %s", primary, why), info
 	}
 	return "", info
 }
 
 const (
-	keyContinue  = "C10/steps-continue-after-failure"
-	keyDestroy   = "C10/old-key-destroyed-before-finalize"
-	keyUnusable  = "C10/primary-unusable-after-fault"
-	keyFollowup  = "C10/followup-rotation-fails"
-	keyPanic     = "C10/panic"
-	keySwallowed = "C10/failure-not-reported"
+	keyContinue = "C10/steps-continue-after-failure"
+	keyDestroy  = "C10/old-key-destroyed-before-finalize"
+	keyClobber  = "C10/existing-certificate-object-overwritten-before-manifest"
+	keyUnusable = "C10/primary-unusable-after-fault"
+	keyFollowup = "C10/followup-rotation-fails"
+	keyRetry    = "C10/refused-retry-damages-primary"
+	keyInProc   = "C10/live-authority-names-uncertified-primary-after-failed-finalize"
+	keyInProcX  = "C10/live-components-unusable-after-failed-rotation"
 )
 
 // rootCause names why the surviving state is broken, from what the faulted run was seen doing.
-func rootCause(r *runResult) string {
+// before is the durable state the run started from.
+func rootCause(r *runResult, before *rotsim.Durable) string {
 	switch {
 	case len(r.in.mutatingAfterErr) > 0:
 		return keyContinue
 	case r.in.destroyPreFinal:
 		return keyDestroy
+	case clobbered(before, r.after) != "":
+		return keyClobber
 	}
 	return keyUnusable
+}
+
+// clobbered names a certificate object that the manifest of the state before the run pointed at
+// (the certificate of a recorded key version, not an orphan left by a failed attempt) and that has
+// other content after the run.
+func clobbered(before, after *rotsim.Durable) string {
+	manifest := string(before.Objects[gcsca.ManifestObjectName])
+	var names []string
+	for n := range before.Objects {
+		names = append(names, n)
+	}
+	sort.Strings(names)
+	for _, n := range names {
+		if !strings.HasSuffix(n, ".crt") || !strings.Contains(manifest, strconv.Quote(n)) {
+			continue
+		}
+		if b, ok := after.Objects[n]; ok && string(b) != string(before.Objects[n]) {
+			return n
+		}
+	}
+	return ""
+}
+
+// shape names what a run left behind, relative to the state it started from.
+func shape(before, after *rotsim.Durable, oldPrimary, nowPrimary string) string {
+	var p []string
+	newKeys, goneKeys := 0, 0
+	for k := range after.Keys {
+		if _, ok := before.Keys[k]; !ok {
+			newKeys++
+		} else if after.Keys[k].N.Cmp(before.Keys[k].N) != 0 {
+			newKeys++
+		}
+	}
+	for k := range before.Keys {
+		if _, ok := after.Keys[k]; !ok {
+			goneKeys++
+		}
+	}
+	if newKeys > 0 {
+		p = append(p, "new-key")
+	}
+	certs := 0
+	for n, b := range after.Objects {
+		if strings.HasSuffix(n, ".crt") && string(before.Objects[n]) != string(b) {
+			certs++
+		}
+	}
+	for n, c := range after.MemCerts {
+		if bc, ok := before.MemCerts[n]; !ok || !bc.Equal(c) {
+			certs++
+		}
+	}
+	if certs > 0 {
+		p = append(p, "new-cert")
+	}
+	if nowPrimary != oldPrimary {
+		p = append(p, "primary-moved")
+	}
+	if goneKeys > 0 {
+		p = append(p, "old-key-gone")
+	}
+	if len(p) == 0 {
+		return "nothing-left-behind"
+	}
+	return strings.Join(p, "+")
 }
 
 type caseInfo struct {
 	nontrivial bool
 	class      string
+	shape      string
 	sample     func() any
+	// soft: violations that do not stop the evaluation of the case (the in-process clause): the
+	// durable clauses and the follow-up rotation are still judged
+	soft []*verdict
+	// for the retry sub-check and the bookkeeping of the enumerations
+	before       *rotsim.Durable
+	after        *rotsim.Durable
+	primaryAfter string
+	firedNames   []string
+	allFired     bool
+}
+
+// starredFlags derives the flags of the starred rotation from the scenario.
+func starredFlags(sc *scenario, pre *rotsim.Durable, oldPrimary string) runFlags {
+	f := runFlags{overwrite: sc.Overwrite, keepGoing: sc.KeepGoing}
+	if sc.SerialOfPrimary {
+		f.serial = primarySerial(sc, pre)
+	}
+	if sc.BlockKeyFile {
+		f.blockKey = memkm.BumpName(oldPrimary)
+	}
+	return f
+}
+
+// primarySerial reads the subject serial number of the current primary's certificate.
+func primarySerial(sc *scenario, d *rotsim.Durable) int64 {
+	w, err := rotsim.Build(d, sc.opts())
+	if err != nil {
+		panic("harness: " + err.Error())
+	}
+	defer w.Close()
+	ctx := w.Context(false)
+	p, err := w.CA.PrimarySigningKeyVersion(ctx)
+	if err != nil {
+		panic("harness: " + err.Error())
+	}
+	der, err := w.CA.Certificate(ctx, p)
+	if err != nil {
+		panic("harness: " + err.Error())
+	}
+	c, err := x509.ParseCertificate(der)
+	if err != nil {
+		panic("harness: " + err.Error())
+	}
+	n, err := strconv.ParseInt(c.Subject.SerialNumber, 0, 64)
+	if err != nil {
+		panic("harness: " + err.Error())
+	}
+	return n
+}
+
+func firedNames(in *injector) []string {
+	var n []string
+	for _, f := range in.fired {
+		if i := strings.Index(f, ":"); i >= 0 {
+			n = append(n, f[i+1:])
+		}
+	}
+	return n
+}
+
+func describe(r *runResult) string {
+	s := fmt.Sprintf("rotation %s (returned %q, prep %v, err %v); fired %v; calls: %s; live keys after: %v", r.outcome(), r.kver, r.prep, r.err, r.in.fired, r.in.logString(), r.after.KeyNames())
+	if r.pan != nil {
+		s += fmt.Sprintf("; panic value: %v", r.pan)
+	}
+	return s
+}
+
+// inprocVerdict: the process survived the rotation attempt; its own components must still name a
+// usable primary ("endorsing keeps working" for whoever holds these objects).
+func inprocVerdict(sc *scenario, stage string, r *runResult, durablePrimary string, from *rotsim.Durable) *verdict {
+	if !r.inprocJudged || r.inproc == "" {
+		return nil
+	}
+	key := keyInProcX
+	// the precise root cause: storage still records the previous primary (and that one is sound),
+	// while the live authority object already names the key version this attempt created
+	if r.inprocPrimary != "" && r.in.newKey != "" && r.inprocPrimary == r.in.newKey && durablePrimary != r.inprocPrimary && strings.Contains(r.inproc, "has no certificate") {
+		key = keyInProc
+	}
+	// the attempt wrote over a certificate object the manifest it started from pointed at: whatever
+	// the process then sees through its own objects has that overwrite as its root cause
+	if from != nil && clobbered(from, r.after) != "" {
+		key = keyClobber
+	}
+	return &verdict{Key: key, Msg: fmt.Sprintf("%s, in the same process (the authority, key manager and signer objects the rotation used): %s | scenario: %s | %s", stage, r.inproc, sc.String(), describe(r))}
 }
 
 // evaluate runs one scenario and returns the first violated clause.
@@ -625,41 +898,46 @@ func evaluate(sc *scenario) (*verdict, caseInfo) {
 	if oldPrimary == "" {
 		panic("harness: no primary in the pre-state")
 	}
-	run := runRotation(sc, pre, newInjector(sc.Faults), false)
+	run := runRotation(sc, pre, newInjector(sc.Faults), starredFlags(sc, pre, oldPrimary))
 	ci.nontrivial = run.in.newKeyAtFault
-	describe := func(r *runResult) string {
-		return fmt.Sprintf("rotation %s (returned %q, prep %v, err %v); fired %v; calls: %s; live keys after: %v", r.outcome(), r.kver, r.prep, r.err, r.in.fired, r.in.logString(), r.after.KeyNames())
-	}
+	ci.before, ci.after = pre, run.after
+	ci.firedNames = firedNames(run.in)
+	ci.allFired = len(run.in.fired) == len(sc.Faults)
 	bad := func(key, f string, a ...any) (*verdict, caseInfo) {
 		return &verdict{Key: key, Msg: fmt.Sprintf(f, a...) + " | scenario: " + sc.String() + " | primary before: " + oldPrimary + " | starred " + describe(run)}, ci
-	}
-	if run.pan != nil {
-		return bad(keyPanic, "rotation panicked: %v", run.pan)
 	}
 	if len(run.in.fired) < len(sc.Faults) {
 		run.in.unreached = len(sc.Faults) - len(run.in.fired)
 	}
+	if run.pan != nil {
+		// the statement speaks of rotations that fail or are interrupted: a panic is an interruption,
+		// judged by the state it leaves like a crash at that point
+		ev.Note("C10: the rotation panicked in at least one faulted run (judged as an interruption), e.g. %s: %v", sc.String(), run.pan)
+	}
 
-	cur := run
 	state := run.after
-	check := func(stage string, r *runResult) (*verdict, stateInfo) {
+	// check judges the state a (possibly failed) attempt left behind. from is the state the attempt
+	// started in, old the primary at that time.
+	check := func(stage string, r *runResult, from *rotsim.Durable, old string) (*verdict, stateInfo) {
 		sym, info := judgeDurable(sc, r.after)
-		if sym == "" && info.primary == oldPrimary {
-			// "the old key is destroyed only after the new key and its certificate are durably primary"
-			if _, ok := r.after.Keys[oldPrimary]; !ok {
-				sym = fmt.Sprintf("old key %q is gone although it is still the durable primary", oldPrimary)
-			}
-		}
+		// "the old key is destroyed only after the new key and its certificate are durably primary"
+		// needs no clause of its own: while the durable primary is still the old key, signing with
+		// the primary (above) is signing with the old key.
 		if sym != "" {
-			v, _ := bad(rootCause(r), "%s: %s", stage, sym)
+			v, _ := bad(rootCause(r, from), "%s: %s", stage, sym)
 			return v, info
+		}
+		if v := inprocVerdict(sc, stage, r, info.primary, from); v != nil {
+			ci.soft = append(ci.soft, v)
 		}
 		return nil, info
 	}
-	v, info := check("after the faulted rotation", run)
+	v, info := check("after the faulted rotation", run, pre, oldPrimary)
 	if v != nil {
 		return v, ci
 	}
+	ci.primaryAfter = info.primary
+	ci.shape = shape(pre, run.after, oldPrimary, info.primary)
 	st := "primary-old"
 	if info.primary != oldPrimary {
 		st = "primary-new"
@@ -671,46 +949,58 @@ func evaluate(sc *scenario) (*verdict, caseInfo) {
 
 	// optional second failed attempt (pairs across rotations)
 	if len(sc.Next) > 0 {
-		nxt := runRotation(sc, state, newInjector(sc.Next), true)
-		if nxt.pan != nil {
-			return bad(keyPanic, "second faulted rotation panicked: %v | second %s", nxt.pan, describe(nxt))
-		}
-		// the reference point for "old" is what was primary when this attempt started
-		savedOld := oldPrimary
-		oldPrimary = info.primary
-		v, info2 := check("after the second faulted rotation", nxt)
-		oldPrimary = savedOld
+		nxt := runRotation(sc, state, newInjector(sc.Next), runFlags{overwrite: true})
+		v, info2 := check("after the second faulted rotation", nxt, state, info.primary)
 		if v != nil {
 			v.Msg += " | second " + describe(nxt)
 			return v, ci
 		}
-		ci.class += "/next:" + nxt.outcome()
+		if len(nxt.in.fired) < len(sc.Next) {
+			ci.class += "/next:fault-unreached"
+			ci.allFired = false
+		} else {
+			ci.class += "/next:" + nxt.outcome()
+		}
 		ci.nontrivial = ci.nontrivial || nxt.in.newKeyAtFault
-		cur, state, info = nxt, nxt.after, info2
+		state, info = nxt.after, info2
 	}
 
 	// the fault-free rotation that is allowed to overwrite leftovers
-	primaryBefore := info.primary
-	fol := runRotation(sc, state, newInjector(nil), true)
+	if v := followUp(sc, state, info.primary, bad); v != nil {
+		return v, ci
+	}
+	ci.sample = func() any {
+		return map[string]any{"scenario": sc.String(), "starred": describe(run), "primary_before": oldPrimary, "primary_after_fault": ci.primaryAfter}
+	}
+	return nil, ci
+}
+
+// followUp: a fault-free rotation with --overwrite in a new process must succeed, move the primary
+// to the key version it returns (rotate.Key's documented result) and leave a sound state.
+func followUp(sc *scenario, state *rotsim.Durable, primaryBefore string, bad func(key, f string, a ...any) (*verdict, caseInfo)) *verdict {
+	fol := runRotation(sc, state, newInjector(nil), runFlags{overwrite: true})
 	if fol.pan != nil {
-		return bad(keyPanic, "follow-up rotation panicked: %v", fol.pan)
+		v, _ := bad(keyFollowup, "the fault-free follow-up rotation with --overwrite panics: %v | follow-up %s", fol.pan, describe(fol))
+		return v
 	}
 	if fol.prep != nil || fol.err != nil {
-		return bad(keyFollowup, "the fault-free follow-up rotation with --overwrite fails: prep %v, err %v | follow-up %s", fol.prep, fol.err, describe(fol))
+		v, _ := bad(keyFollowup, "the fault-free follow-up rotation with --overwrite fails: prep %v, err %v | follow-up %s", fol.prep, fol.err, describe(fol))
+		return v
 	}
 	sym, finfo := judgeDurable(sc, fol.after)
 	if sym != "" {
-		v, _ := bad(rootCause(fol), "after the follow-up rotation: %s | follow-up %s", sym, describe(fol))
-		return v, ci
+		v, _ := bad(rootCause(fol, state), "after the follow-up rotation: %s | follow-up %s", sym, describe(fol))
+		return v
 	}
 	if finfo.primary == primaryBefore || finfo.primary != fol.kver {
-		return bad(keyFollowup, "follow-up rotation returned %q but the durable primary is %q (was %q)", fol.kver, finfo.primary, primaryBefore)
+		v, _ := bad(keyFollowup, "follow-up rotation returned %q but the durable primary is %q (was %q)", fol.kver, finfo.primary, primaryBefore)
+		return v
 	}
-	_ = cur
-	ci.sample = func() any {
-		return map[string]any{"scenario": sc.String(), "starred": describe(run), "primary_before": oldPrimary, "primary_after_fault": info.primary, "primary_after_followup": finfo.primary}
+	if fol.inprocJudged && fol.inproc != "" {
+		v, _ := bad(keyInProcX, "after the successful follow-up rotation, in the same process: %s | follow-up %s", fol.inproc, describe(fol))
+		return v
 	}
-	return nil, ci
+	return nil
 }
 
 func modeClass(sc *scenario) string {
@@ -724,20 +1014,35 @@ func modeClass(sc *scenario) string {
 	return strings.Join(m, "+")
 }
 
-// dryCalls returns the names of the calls a fault-free starred rotation makes.
-func dryCalls(sc *scenario) []string {
-	dry := runRotation(&scenario{KM: sc.KM, CA: sc.CA, R: sc.R}, preState(sc), newInjector(nil), false)
+// dryRun returns the calls a fault-free starred rotation (same flags) makes, or says why there is
+// no usable dry pass (the fault-free rotation with these flags fails or leaves an unusable primary:
+// not this property's subject, and nothing to number faults against).
+func dryRun(sc *scenario) ([]callRec, string) {
+	base := *sc
+	base.Faults, base.Next = nil, nil
+	pre := preState(&base)
+	_, info := judgeDurable(&base, pre)
+	dry := runRotation(&base, pre, newInjector(nil), starredFlags(&base, pre, info.primary))
 	if dry.pan != nil || dry.crashed || dry.prep != nil || dry.err != nil {
-		panic(fmt.Sprintf("harness: dry rotation failed: %v %v %v", dry.pan, dry.prep, dry.err))
+		return nil, fmt.Sprintf("the fault-free rotation fails: panic %v, prep %v, err %v", dry.pan, dry.prep, dry.err)
 	}
-	if sym, _ := judgeDurable(sc, dry.after); sym != "" {
-		panic("harness: fault-free rotation leaves a broken state: " + sym)
+	if sym, _ := judgeDurable(&base, dry.after); sym != "" {
+		return nil, "the fault-free rotation leaves a broken state: " + sym
 	}
-	return dry.in.names()
+	return dry.in.calls, ""
+}
+
+func dryCalls(sc *scenario) ([]string, string) {
+	recs, problem := dryRun(sc)
+	var n []string
+	for _, c := range recs {
+		n = append(n, c.Name)
+	}
+	return n, problem
 }
 
 // ---------------------------------------------------------------------------------------------
-// Sub-check 1: every single fault and every crash point
+// Bookkeeping shared by the enumerations
 
 type combo struct{ KM, CA string }
 
@@ -752,26 +1057,173 @@ func shardInfo() (int, int) {
 	return i, n
 }
 
-const ruleCommon = "Components: rotate.Key driven like the rotate command (default-next serial through sops.NextSigningKeySerial) over {memkm, localkm} x {memca, gcsca over the in-memory storage client}; the wrappers number every call to key manager (CreateNewSigningKeyVersion, CertificateTemplate, DestroyKeyVersion), signer (PublicKey, Sign), authority (PrimarySigningKeyVersion, PrimaryRootKeyVersion, CABundle, Certificate, NewMutation, mutation setters, Finalize) and storage (Reader, first Read, Exists, Writer, Write, Close), nested calls included. Fault modes per call: err = not performed, error returned; errafter = performed, error reported (mutating calls only); crash = performed, then the process dies (in-process state abandoned). Durable state = key manager keys (memkm: signer key map standing in for the KMS; localkm: .pem files), bucket objects of completed writes, memca content. Oracle on FRESH components over the surviving durable state: a primary signing key is recorded, Certificate(primary) parses and its signature verifies under the stored root, the key manager holds the primary (endorse.SignDoc succeeds and the reference authenticity predicate accepts the endorsement at signing time + 36 h), the old key exists whenever the durable primary is still the old one; then a fault-free rotation with --overwrite in a new process must succeed, move the primary to the key it returns, and leave a state satisfying the same clauses. non-trivial = the new key version existed when the fault fired"
+type hit struct {
+	n     int
+	first *scenario
+	msg   string
+}
+
+// tally collects the violations of an enumeration by root-cause key: listed (known) ones are
+// counted through ev.Violation, of the others the first one met fails the test at the end.
+type tally struct {
+	hits     map[string]*hit
+	order    []string
+	mismatch int
+}
+
+func newTally() *tally { return &tally{hits: map[string]*hit{}} }
+
+func (tl *tally) record(t *testing.T, name string, sc *scenario, v *verdict) {
+	if ev.IsKnown(v.Key) {
+		ev.Violation(t, v.Key, "%s", v.Msg)
+		ev.Class(name, "known:"+v.Key)
+		return
+	}
+	h := tl.hits[v.Key]
+	if h == nil {
+		h = &hit{first: sc, msg: v.Msg}
+		tl.hits[v.Key] = h
+		tl.order = append(tl.order, v.Key)
+	}
+	h.n++
+}
+
+// finish reports the first unlisted root cause (if any) and says whether the enumeration was clean.
+func (tl *tally) finish(t *testing.T, testName string) bool {
+	if len(tl.order) == 0 {
+		return true
+	}
+	for _, k := range tl.order[1:] {
+		t.Logf("also violated: %s on %d cases, first: %s :: %s", k, tl.hits[k].n, tl.hits[k].first, tl.hits[k].msg)
+	}
+	k := tl.order[0]
+	t.Logf("%d distinct unlisted root-cause keys; reporting the first one met (%s, %d cases)", len(tl.order), k, tl.hits[k].n)
+	ev.SaveReplay("C10", testName, tl.hits[k].first)
+	ev.Violation(t, k, "%s", tl.hits[k].msg)
+	return false
+}
+
+// runCase evaluates one scenario of an enumeration. expect, if given, names the calls the faults
+// are meant for (from the dry pass); when the faulted run met other calls at those indices the case
+// is counted as inconclusive for the "every call" claim (it is still judged).
+func runCase(t *testing.T, name string, sc *scenario, expect []string, tl *tally) (caseInfo, bool) {
+	v, ci := evaluate(sc)
+	if v != nil {
+		tl.record(t, name, sc, v)
+	}
+	for _, s := range ci.soft {
+		tl.record(t, name, sc, s)
+	}
+	if v != nil {
+		return ci, false
+	}
+	if expect != nil {
+		same := len(expect) == len(ci.firedNames)
+		for i := 0; same && i < len(expect); i++ {
+			same = expect[i] == ci.firedNames[i]
+		}
+		if !same {
+			tl.mismatch++
+			ev.Class(name, "inconclusive/call-sequence-differs-from-dry-pass")
+		}
+	}
+	ev.Case(name, ci.nontrivial, sc.String(), ci.class, ci.sample)
+	ev.Class(name, "left-behind/"+ci.shape)
+	return ci, true
+}
+
+func replayOne(t *testing.T, sc *scenario) {
+	v, ci := evaluate(sc)
+	if v != nil {
+		ev.Violation(t, v.Key, "%s", v.Msg)
+	}
+	for _, s := range ci.soft {
+		ev.Violation(t, s.Key, "%s", s.Msg)
+	}
+}
+
+const ruleCommon = "Components: rotate.Key driven like the rotate command (default-next serial through sops.NextSigningKeySerial unless stated) over {memkm, localkm} x {memca, gcsca over the in-memory storage client}; the wrappers number every call to key manager (CreateNewSigningKeyVersion, CertificateTemplate, DestroyKeyVersion), signer (PublicKey, Sign), authority (PrimarySigningKeyVersion, PrimaryRootKeyVersion, CABundle, Certificate, NewMutation, mutation setters, Finalize) and storage (Reader, first Read, Exists, Writer, Write, Close), nested calls included. Fault modes per call: err = not performed, error returned; errafter = performed, error reported (mutating calls only); crash = performed, then the process dies (in-process state abandoned); a panic of the code under test is an interruption like a crash. Durable state = key manager keys (memkm: signer key map standing in for the KMS; localkm: .pem files), bucket objects of completed writes, memca content. Oracle on FRESH components over the surviving durable state: a primary signing key is recorded, Certificate(primary) parses and its signature verifies under a certificate of the stored CA bundle, and the key manager holds the primary: endorse.SignDoc succeeds and the reference authenticity predicate accepts the endorsement at signing time + 36 h (while the durable primary is the old key this is the clause that the old key still exists); when the process outlived the attempt (error returned), the same clauses on the very authority / key manager / signer objects the rotation used (in-process clause, reported under its own keys and never instead of the durable clauses); then a fault-free rotation with --overwrite in a new process must succeed, move the primary to the key it returns, and leave a state satisfying the same clauses"
+
+// ---------------------------------------------------------------------------------------------
+// Sub-check 1: every single fault and every crash point; sub-check 1b: a retry WITHOUT --overwrite
+// over every distinct state a faulted rotation left behind
+
+const retryName = "leftovers/retry-without-overwrite"
+
+func stateKey(sc *scenario, d *rotsim.Durable, primary string) string {
+	h := sha256.New()
+	fmt.Fprintf(h, "%s+%s|%s|%s|%s|", sc.KM, sc.CA, primary, d.MemRoot, d.MemPrimary)
+	for _, k := range d.KeyNames() {
+		fmt.Fprintf(h, "k:%s:%x|", k, sha256.Sum256(d.Keys[k].N.Bytes()))
+	}
+	var objs []string
+	for n := range d.Objects {
+		objs = append(objs, n)
+	}
+	sort.Strings(objs)
+	for _, n := range objs {
+		fmt.Fprintf(h, "o:%s:%x|", n, sha256.Sum256(d.Objects[n]))
+	}
+	var certs []string
+	for n := range d.MemCerts {
+		certs = append(certs, n)
+	}
+	sort.Strings(certs)
+	for _, n := range certs {
+		fmt.Fprintf(h, "c:%s:%x|", n, sha256.Sum256(d.MemCerts[n].Raw))
+	}
+	return fmt.Sprintf("%x", h.Sum(nil))
+}
+
+// retryCase: the operator re-runs `rotate` WITHOUT --overwrite over what a failed attempt left.
+// That attempt may be refused; if it is, it is a failed rotation like any other: the recorded
+// primary must still be usable afterwards and the --overwrite rotation must still succeed.
+func retryCase(t *testing.T, sc *scenario, before *rotsim.Durable, state *rotsim.Durable, primary, leftShape string, tl *tally) {
+	r := runRotation(sc, state, newInjector(nil), runFlags{})
+	canon := "retry without --overwrite after: " + sc.String()
+	bad := func(key, f string, a ...any) (*verdict, caseInfo) {
+		return &verdict{Key: key, Msg: fmt.Sprintf(f, a...) + " | leftovers of: " + sc.String() + " (" + leftShape + ") | primary before the retry: " + primary + " | retry " + describe(r)}, caseInfo{}
+	}
+	class := fmt.Sprintf("%s+%s/over:%s/retry:%s", sc.KM, sc.CA, leftShape, r.outcome())
+	if r.outcome() == "ok" {
+		// a successful rotation is not this property's subject (C12 judges those)
+		ev.Case(retryName, false, canon, class, nil)
+		return
+	}
+	sym, info := judgeDurable(sc, r.after)
+	if sym != "" {
+		key := keyRetry
+		if c := clobbered(state, r.after); c != "" {
+			key = keyClobber
+		}
+		v, _ := bad(key, "a rotation without --overwrite over the leftovers of a failed attempt did not succeed (%s), and afterwards: %s", r.outcome(), sym)
+		tl.record(t, retryName, sc, v)
+		return
+	}
+	if v := inprocVerdict(sc, "after the refused retry", r, info.primary, state); v != nil {
+		tl.record(t, retryName, sc, v)
+	}
+	if v := followUp(sc, r.after, info.primary, bad); v != nil {
+		tl.record(t, retryName, sc, v)
+		return
+	}
+	ev.Case(retryName, shape(state, r.after, primary, info.primary) != "nothing-left-behind" || leftShape != "nothing-left-behind", canon, class, func() any {
+		return map[string]any{"leftovers_of": sc.String(), "left_behind": leftShape, "retry": describe(r)}
+	})
+}
 
 func TestSingleFaults(t *testing.T) {
 	const name = "faults/single"
-	ev.Rule(name, "histories bootstrap; rotate^r; rotate* with r in {0,1} (thorough {0,1,2}); the starred rotation's calls are numbered in a dry pass, then EVERY call index x EVERY applicable fault mode is injected in turn. "+ruleCommon+"; distinct = (components, r, call index, mode)")
+	ev.Rule(name, "histories bootstrap; rotate^r; rotate* with r in {0,1} (thorough {0,1,2}); the starred rotation (no flags) has its calls numbered in a dry pass, then EVERY call index x EVERY applicable fault mode is injected in turn (the sub-check is marked exhaustive only if every faulted run met the dry pass's call at the faulted index). "+ruleCommon+". non-trivial = the new key version existed when the fault fired; classes left-behind/* say what the faulted run left (new key, new certificate, primary moved, old key gone); distinct = (components, r, call index, mode)")
+	ev.Rule(retryName, "for every DISTINCT durable state (key names and moduli, objects, memca content) that a case of faults/single left behind: a fault-free rotation WITHOUT --overwrite in a new process (the operator re-runs the command as is). If it succeeds the case is trivial (not this property's subject). If it is refused it is a failed rotation: the oracle of faults/single applies to the state it leaves, and the --overwrite rotation after it must succeed. "+ruleCommon+". non-trivial = the retry was refused over a state in which the failed attempt had left something; distinct = the leftover state")
 	var replay scenario
 	if ev.ReplayCase("TestSingleFaults", &replay) {
-		if v, _ := evaluate(&replay); v != nil {
-			ev.Violation(t, v.Key, "%s", v.Msg)
-		}
+		replayOne(t, &replay)
 		return
 	}
 	shard, nshards := shardInfo()
-	type hit struct {
-		n     int
-		first *scenario
-		msg   string
-	}
-	hits := map[string]*hit{}
-	var order []string
+	tl, rtl := newTally(), newTally()
+	seen := map[string]bool{}
 	idx := 0
 	maxR := ev.Scale(1, 2)
 	if maxR > 2 {
@@ -780,7 +1232,11 @@ func TestSingleFaults(t *testing.T) {
 	for _, c := range combos {
 		for r := 0; r <= maxR; r++ {
 			base := &scenario{KM: c.KM, CA: c.CA, R: r}
-			names := dryCalls(base)
+			names, problem := dryCalls(base)
+			if problem != "" {
+				// without flags this is the plain `rotate` of the repository's own suite
+				t.Fatalf("harness: no dry pass for %s: %s", base, problem)
+			}
 			ev.Class(name, fmt.Sprintf("%s+%s r=%d: %d calls per rotation", c.KM, c.CA, r, len(names)))
 			for i, callName := range names {
 				for _, mode := range modesFor(callName) {
@@ -789,141 +1245,331 @@ func TestSingleFaults(t *testing.T) {
 						continue
 					}
 					sc := &scenario{KM: c.KM, CA: c.CA, R: r, Faults: []faultSpec{{Index: i, Mode: mode}}}
-					v, ci := evaluate(sc)
-					if v != nil {
-						if ev.IsKnown(v.Key) {
-							ev.Violation(t, v.Key, "%s", v.Msg)
-							ev.Class(name, "known:"+v.Key)
-							continue
-						}
-						h := hits[v.Key]
-						if h == nil {
-							h = &hit{first: sc, msg: v.Msg}
-							hits[v.Key] = h
-							order = append(order, v.Key)
-						}
-						h.n++
+					ci, ok := runCase(t, name, sc, []string{callName}, tl)
+					if !ok {
 						continue
 					}
-					ev.Case(name, ci.nontrivial, sc.String(), ci.class, ci.sample)
+					if k := stateKey(sc, ci.after, ci.primaryAfter); !seen[k] {
+						seen[k] = true
+						retryCase(t, sc, ci.before, ci.after, ci.primaryAfter, ci.shape, rtl)
+					}
 				}
 			}
 		}
 	}
-	if len(order) > 0 {
-		for _, k := range order[1:] {
-			t.Logf("also violated: %s on %d fault positions, first: %s :: %s", k, hits[k].n, hits[k].first, hits[k].msg)
-		}
-		k := order[0]
-		t.Logf("%d distinct unlisted root-cause keys; reporting the first one met (%s, %d fault positions)", len(order), k, hits[k].n)
-		ev.SaveReplay("C10", "TestSingleFaults", hits[k].first)
-		ev.Violation(t, k, "%s", hits[k].msg)
-		return
+	clean := tl.finish(t, "TestSingleFaults")
+	if clean && rtl.finish(t, "TestSingleFaults") {
+		ev.Exhaustive(retryName)
 	}
-	ev.Exhaustive(name)
+	if clean && tl.mismatch == 0 {
+		ev.Exhaustive(name)
+	}
 	if closedAfterFailedWrite > 0 {
 		ev.Note("C10: storage/ops.WriteFile closes the writer after a failed Write (%d times in this run). The storage double follows GCS there: a writer whose Write failed creates no object on Close. With a client whose Close commits whatever was buffered (testing/storage.Mock does; storage/local has truncated the file when the writer was opened) a failed manifest Write would leave an empty keyManifest.textproto, i.e. no recorded primary. That is below the object granularity this property is stated at and is not judged.", closedAfterFailedWrite)
 	}
 }
 
 // ---------------------------------------------------------------------------------------------
-// Sub-check 2: sampled pairs of faults
+// Sub-check 2: the starred rotation run with flags
+
+func indexOf(names []string, prefix string) int {
+	for i, n := range names {
+		if strings.HasPrefix(n, prefix) {
+			return i
+		}
+	}
+	return -1
+}
+
+func TestFlagFaults(t *testing.T) {
+	const name = "faults/flags"
+	ev.Rule(name, "the starred rotation of faults/single run with command-line flags, r = 0 (thorough r in {0,1}): (a) --keep_going (thorough also --keep_going --overwrite) over all four component pairs: every call from the creation of the new key on x {err, errafter} (a crash does not consult flags); (b) --overwrite --rotated_key_serial_override=<subject serial of the current primary>, same common name, over gcsca (quick: memkm; thorough: both key managers): the new certificate's object name is then the current primary certificate's object name; every call from ca.Finalize on x every applicable mode. "+ruleCommon+". non-trivial = the new key version existed when the fault fired; distinct = (components, r, flags, call index, mode)")
+	var replay scenario
+	if ev.ReplayCase("TestFlagFaults", &replay) {
+		replayOne(t, &replay)
+		return
+	}
+	shard, nshards := shardInfo()
+	tl := newTally()
+	idx, incomplete := 0, 0
+	maxR := ev.Scale(0, 1)
+	if maxR > 1 {
+		maxR = 1
+	}
+	thorough := ev.Tier() == "thorough"
+	type variant struct {
+		label string
+		base  scenario
+		from  string // first call to fault
+		modes func(call string) []string
+	}
+	errOnly := func(call string) []string {
+		var m []string
+		for _, x := range modesFor(call) {
+			if x != mCrash {
+				m = append(m, x)
+			}
+		}
+		return m
+	}
+	for _, c := range combos {
+		for r := 0; r <= maxR; r++ {
+			vs := []variant{{"keep_going", scenario{KeepGoing: true}, "manager.CreateNewSigningKeyVersion", errOnly}}
+			if thorough {
+				vs = append(vs, variant{"keep_going+overwrite", scenario{KeepGoing: true, Overwrite: true}, "manager.CreateNewSigningKeyVersion", errOnly})
+			}
+			if c.CA == "gcsca" && (thorough || c.KM == "memkm") {
+				vs = append(vs, variant{"overwrite+serial-of-primary", scenario{Overwrite: true, SerialOfPrimary: true}, "ca.Finalize", modesFor})
+			}
+			for _, v := range vs {
+				base := v.base
+				base.KM, base.CA, base.R = c.KM, c.CA, r
+				names, problem := dryCalls(&base)
+				if problem != "" {
+					incomplete++
+					ev.Class(name, "inconclusive/"+v.label+": no dry pass")
+					ev.Note("C10 faults/flags: %s+%s r=%d %s not enumerated: %s", c.KM, c.CA, r, v.label, problem)
+					continue
+				}
+				lo := indexOf(names, v.from)
+				if lo < 0 {
+					incomplete++
+					ev.Class(name, "inconclusive/"+v.label+": no "+v.from+" call in the dry pass")
+					continue
+				}
+				ev.Class(name, fmt.Sprintf("%s+%s r=%d %s: calls %d..%d", c.KM, c.CA, r, v.label, lo, len(names)-1))
+				for i := lo; i < len(names); i++ {
+					for _, mode := range v.modes(names[i]) {
+						idx++
+						if idx%nshards != shard {
+							continue
+						}
+						sc := base
+						sc.Faults = []faultSpec{{Index: i, Mode: mode}}
+						if _, ok := runCase(t, name, &sc, []string{names[i]}, tl); ok {
+							ev.Class(name, "flags/"+v.label)
+						}
+					}
+				}
+			}
+		}
+	}
+	if tl.finish(t, "TestFlagFaults") && tl.mismatch == 0 && incomplete == 0 {
+		ev.Exhaustive(name)
+	}
+}
+
+// ---------------------------------------------------------------------------------------------
+// Sub-check 3: key creation failing half-way INSIDE the key manager
+
+func TestInsideKeyManager(t *testing.T) {
+	const name = "faults/inside-key-manager"
+	ev.Rule(name, "localkm x {memca, gcsca}, r in {0,1}: the starred rotation (no flags, no injected call fault) runs while a directory sits where localkm would write the new key version's .pem file, so that new-key creation fails inside the key manager after the key exists in memory; the obstacle is gone afterwards. "+ruleCommon+". non-trivial = the rotation did not succeed (the obstacle was effective); distinct = (components, r)")
+	var replay scenario
+	if ev.ReplayCase("TestInsideKeyManager", &replay) {
+		replayOne(t, &replay)
+		return
+	}
+	tl := newTally()
+	for _, c := range combos {
+		if c.KM != "localkm" {
+			continue
+		}
+		for r := 0; r <= 1; r++ {
+			sc := &scenario{KM: c.KM, CA: c.CA, R: r, BlockKeyFile: true}
+			v, ci := evaluate(sc)
+			if v != nil {
+				tl.record(t, name, sc, v)
+			}
+			for _, s := range ci.soft {
+				tl.record(t, name, sc, s)
+			}
+			if v != nil {
+				continue
+			}
+			ev.Case(name, !strings.Contains(ci.class, "/none/ok/"), sc.String(), ci.class, ci.sample)
+		}
+	}
+	if tl.finish(t, "TestInsideKeyManager") {
+		ev.Exhaustive(name)
+	}
+}
+
+// ---------------------------------------------------------------------------------------------
+// Sub-check 4: sampled pairs of faults
+
+// toleratedCandidates: calls nested inside manager.CertificateTemplate. The key managers document a
+// fallback there ("does not have a certificate. Using Google template"), so a rotation can go on
+// after an error at such a call, which is what a second fault in the same run needs.
+func toleratedCandidates(recs []callRec) []int {
+	var out []int
+	top := ""
+	for i, c := range recs {
+		if c.Depth == 0 {
+			top = c.Name
+			continue
+		}
+		if top == "manager.CertificateTemplate" && canFail(c.Name) {
+			out = append(out, i)
+		}
+	}
+	return out
+}
 
 func TestFaultPairs(t *testing.T) {
 	const name = "faults/pairs"
-	ev.Rule(name, "sampled pairs of faults: components and r in {0,1,2} drawn; first fault (index, mode) drawn over the starred rotation's calls with 3:1 preference for calls at or after creation of the new key; second fault either in the same run (an index after the first one, numbering that run's own calls; reached only if the run goes on after the first fault, which legitimate error tolerance inside the components allows) or in the next rotation attempt (new process, --overwrite), after which the fault-free rotation is tried. "+ruleCommon+"; distinct = the scenario")
+	ev.Rule(name, "sampled pairs of faults: components and r in {0,1,2} drawn. 3 of 4 cases fault two successive attempts: first fault (index, mode) over the starred rotation's calls with 3:1 preference for calls at or after creation of the new key, second fault (index with the same preference, any mode applicable to the dry pass's call there) in the next attempt (new process, --overwrite); then the fault-free rotation is tried. 1 of 4 cases puts both faults into the starred run: the first one (err) with 3:1 preference on a call inside manager.CertificateTemplate, where the key managers tolerate errors, otherwise any non-crash fault; the second at a later index. "+ruleCommon+". non-trivial = BOTH faults fired and the new key version existed when one of them did (cases whose second fault was not reached are counted in the */second-fault-unreached and */next:fault-unreached classes and are trivial); distinct = the scenario")
 	checks(ev.Scale(60, 400))
-	dry := map[string][]string{}
+	dry := map[string][]callRec{}
 	rapid.Check(t, func(t *rapid.T) {
 		c := rapid.SampledFrom(combos).Draw(t, "components")
 		r := rapid.IntRange(0, 2).Draw(t, "r")
 		sc := &scenario{KM: c.KM, CA: c.CA, R: r}
 		k := fmt.Sprintf("%s+%s/%d", c.KM, c.CA, r)
-		names, ok := dry[k]
+		recs, ok := dry[k]
 		if !ok {
-			names = dryCalls(sc)
-			dry[k] = names
+			var problem string
+			if recs, problem = dryRun(sc); problem != "" {
+				t.Fatalf("harness: no dry pass for %s: %s", sc, problem)
+			}
+			dry[k] = recs
 		}
-		create := 0
-		for i, n := range names {
-			if n == "manager.CreateNewSigningKeyVersion" {
-				create = i
+		names := make([]string, len(recs))
+		for i, c := range recs {
+			names[i] = c.Name
+		}
+		create := indexOf(names, "manager.CreateNewSigningKeyVersion")
+		if create < 0 {
+			create = 0
+		}
+		late := func(label string) int {
+			lo := 0
+			if rapid.IntRange(0, 3).Draw(t, label+"-late") != 0 {
+				lo = create
+			}
+			return rapid.IntRange(lo, len(names)-1).Draw(t, label)
+		}
+		sameRun := rapid.IntRange(0, 3).Draw(t, "sameRun") == 0
+		if sameRun {
+			i := -1
+			if tol := toleratedCandidates(recs); len(tol) > 0 && rapid.IntRange(0, 3).Draw(t, "tolerated") != 0 {
+				i = rapid.SampledFrom(tol).Draw(t, "i")
+				sc.Faults = []faultSpec{{Index: i, Mode: mErr}}
+			} else {
+				i = rapid.IntRange(0, len(names)-2).Draw(t, "i")
+				var m []string
+				for _, x := range modesFor(names[i]) {
+					if x != mCrash {
+						m = append(m, x)
+					}
+				}
+				if len(m) == 0 {
+					sameRun = false // only a crash is possible there: nothing can follow in the same run
+				} else {
+					sc.Faults = []faultSpec{{Index: i, Mode: rapid.SampledFrom(m).Draw(t, "mode1")}}
+				}
+			}
+			if sameRun {
+				if i >= len(names)-1 {
+					i = len(names) - 2
+					sc.Faults[0].Index = i
+				}
+				j := rapid.IntRange(i+1, len(names)-1).Draw(t, "j")
+				// the second fault's call is not known in advance: err where the call met can fail,
+				// otherwise the injector turns it into a crash
+				m2 := rapid.SampledFrom([]string{mErr, mCrash}).Draw(t, "mode2")
+				sc.Faults = append(sc.Faults, faultSpec{Index: j, Mode: m2})
 			}
 		}
-		lo := 0
-		if rapid.IntRange(0, 3).Draw(t, "late") != 0 {
-			lo = create
-		}
-		i := rapid.IntRange(lo, len(names)-1).Draw(t, "i")
-		m1 := rapid.SampledFrom(modesFor(names[i])).Draw(t, "mode1")
-		sc.Faults = []faultSpec{{Index: i, Mode: m1}}
-		if m1 != mCrash && rapid.Bool().Draw(t, "sameRun") {
-			j := rapid.IntRange(i+1, len(names)+2).Draw(t, "j")
-			// the second fault's call is not known in advance: err is applicable to all but the
-			// mutation setters, so crash is used where the dry run shows a setter at that position
-			m2 := rapid.SampledFrom([]string{mErr, mCrash}).Draw(t, "mode2")
-			sc.Faults = append(sc.Faults, faultSpec{Index: j, Mode: m2})
-		} else {
-			j := rapid.IntRange(0, len(names)+2).Draw(t, "j")
-			m2 := rapid.SampledFrom([]string{mErr, mCrash}).Draw(t, "mode2")
+		if !sameRun {
+			i := late("i")
+			m1 := rapid.SampledFrom(modesFor(names[i])).Draw(t, "mode1")
+			sc.Faults = []faultSpec{{Index: i, Mode: m1}}
+			j := late("j")
+			m2 := rapid.SampledFrom(modesFor(names[j])).Draw(t, "mode2")
 			sc.Next = []faultSpec{{Index: j, Mode: m2}}
 		}
 		v, ci := evaluate(sc)
 		if v != nil {
 			ev.Violation(t, v.Key, "%s", v.Msg)
+		}
+		for _, s := range ci.soft {
+			ev.Violation(t, s.Key, "%s", s.Msg)
+		}
+		if v != nil {
 			return
 		}
-		ev.Case(name, ci.nontrivial, sc.String(), ci.class, ci.sample)
+		ev.Case(name, ci.nontrivial && ci.allFired, sc.String(), ci.class, ci.sample)
+		ev.Class(name, "left-behind/"+ci.shape)
 	})
 }
 
 // ---------------------------------------------------------------------------------------------
 // Regression tests: the two findings on the pinned tree, reproduced without enumeration
 
-func regress(t *testing.T, km, ca, callPrefix, mode, wantKey string) {
-	sc := &scenario{KM: km, CA: ca, R: 0}
+func regress(t *testing.T, base scenario, callPrefix, mode, wantKey string) {
+	sc := &base
+	km, ca := sc.KM, sc.CA
 	pre := preState(sc)
 	_, before := judgeDurable(sc, pre)
 	in := newInjector(nil)
 	in.byName = map[string]string{callPrefix: mode}
-	run := runRotation(sc, pre, in, false)
+	run := runRotation(sc, pre, in, starredFlags(sc, pre, before.primary))
 	if len(in.fired) != 1 {
-		t.Fatalf("harness: fault on %q did not fire: %s", callPrefix, in.logString())
-	}
-	if run.err == nil && !run.crashed {
-		t.Fatalf("harness: rotation succeeded although %s was faulted", callPrefix)
+		// the rotation no longer makes this call (e.g. it is refused earlier): the state decides
+		t.Logf("the fault on %q did not fire: %s", callPrefix, in.logString())
 	}
 	sym, after := judgeDurable(sc, run.after)
-	if sym == "" && after.primary == before.primary {
-		if _, ok := run.after.Keys[before.primary]; !ok {
-			sym = "old key gone while still primary"
-		}
+	what := "afterwards (fresh components over the surviving state)"
+	key := ""
+	if sym != "" {
+		key = rootCause(run, pre)
+	} else if v := inprocVerdict(sc, "after the faulted rotation", run, after.primary, pre); v != nil {
+		sym, key, what = run.inproc, v.Key, "afterwards, in the same process,"
+		after.primary = run.inprocPrimary
 	}
 	if sym == "" {
-		t.Logf("%s+%s, %s on %s: rotation %s, primary %q -> %q, live keys %v: state is consistent", km, ca, mode, callPrefix, run.outcome(), before.primary, after.primary, run.after.KeyNames())
+		t.Logf("%s+%s %s, %s on %s: rotation %s, primary %q -> %q, live keys %v: state is consistent", km, ca, sc.flagString(), mode, callPrefix, run.outcome(), before.primary, after.primary, run.after.KeyNames())
 		return
 	}
-	key := rootCause(run)
 	if key != wantKey {
 		t.Logf("note: expected root cause %s, classified as %s", wantKey, key)
 	}
-	ev.Violation(t, key, "%s+%s: bootstrap; rotate with %s on %s: rotate.Key returned %v, yet afterwards %s (primary before %q, recorded primary now %q, live keys %v; calls made after the fault: %v)",
-		km, ca, mode, callPrefix, run.err, sym, before.primary, after.primary, run.after.KeyNames(), in.mutatingAfterErr)
+	ev.Violation(t, key, "%s+%s: bootstrap; rotate %s with %s on %s: rotate.Key returned %v, yet %s %s (primary before %q, primary now %q, live keys %v; calls made after the fault: %v)",
+		km, ca, sc.flagString(), mode, callPrefix, run.err, what, sym, before.primary, after.primary, run.after.KeyNames(), in.mutatingAfterErr)
 }
 
 // A failure while signing the new certificate must stop the rotation; on the pinned tree the
 // remaining steps still run: primary := uncertified new key, old key destroyed.
 func TestRegressionSignFailureStillDestroysOldKey(t *testing.T) {
-	t.Run("memca", func(t *testing.T) { regress(t, "memkm", "memca", "signer.Sign(", mErr, keyContinue) })
-	t.Run("gcsca", func(t *testing.T) { regress(t, "memkm", "gcsca", "signer.Sign(", mErr, keyContinue) })
+	t.Run("memca", func(t *testing.T) {
+		regress(t, scenario{KM: "memkm", CA: "memca"}, "signer.Sign(", mErr, keyContinue)
+	})
+	t.Run("gcsca", func(t *testing.T) {
+		regress(t, scenario{KM: "memkm", CA: "gcsca"}, "signer.Sign(", mErr, keyContinue)
+	})
 }
 
 // The old key must outlive Finalize; on the pinned tree it is destroyed first, so a failing (or
 // never reached) Finalize leaves the recorded primary without key material.
 func TestRegressionFinalizeFailureAfterDestroy(t *testing.T) {
-	t.Run("finalize-fails", func(t *testing.T) { regress(t, "memkm", "gcsca", "ca.Finalize", mErr, keyDestroy) })
+	t.Run("finalize-fails", func(t *testing.T) {
+		regress(t, scenario{KM: "memkm", CA: "gcsca"}, "ca.Finalize", mErr, keyDestroy)
+	})
 	t.Run("crash-after-destroy", func(t *testing.T) {
-		regress(t, "localkm", "gcsca", "manager.DestroyKeyVersion(", mCrash, keyDestroy)
+		regress(t, scenario{KM: "localkm", CA: "gcsca"}, "manager.DestroyKeyVersion(", mCrash, keyDestroy)
 	})
 }
 
+// rotate --overwrite --rotated_key_serial_override=<serial of the current primary>: the new
+// certificate goes to the object that holds the CURRENT primary's certificate; an interruption
+// between that write and the manifest write leaves the old primary with a foreign certificate.
+func TestRegressionSerialOfPrimaryOverwritesItsCertificate(t *testing.T) {
+	regress(t, scenario{KM: "memkm", CA: "gcsca", Overwrite: true, SerialOfPrimary: true}, "storage.Close(certs/", mCrash, keyClobber)
+}
+
+// A certificate upload that fails inside gcsca.Finalize leaves the cached manifest naming the new,
+// uncertified key version as primary: the process's authority object is unusable for endorsing.
+func TestRegressionFailedFinalizeLeavesCachedPrimary(t *testing.T) {
+	regress(t, scenario{KM: "memkm", CA: "gcsca"}, "storage.Writer(certs/", mErr, keyInProc)
+}
